@@ -1000,7 +1000,8 @@ func (e *Evaluator) evalStatement(stmt Statement) error {
 				}
 			}
 		case ValueObj:
-			for k, v := range *iterable.Value.Obj {
+			for _, k := range sortedKeys(*iterable.Value.Obj) {
+				v := (*iterable.Value.Obj)[k]
 				if indexLocal != nil {
 					indexLocal.Value = v.Value
 				}
